@@ -35,12 +35,20 @@ func (t *rTracer) CaptureFault(env *rvm.EVM, pc uint64, op rvm.OpCode, gas, cost
 func (t *rTracer) CaptureState(env *rvm.EVM, pc uint64, op rvm.OpCode, gas, cost uint64, memory *rvm.Memory, stack *rvm.Stack, contract *rvm.Contract, depth int, err error) error {
 	if err != nil {
 		// the instruction was not executed
+		t.c.why = fmt.Sprintf("%v at depth %d pc %d op %s gas %d cost %d", err, depth, pc, opName(byte(op)), gas, cost)
+		if err.Error() == "evm: write protection" {
+			t.c.writeBlocked = true
+		}
 		if err == rvm.ErrOutOfGas && cost > 0 {
 			t.c.budget = true
 		}
 		return nil
 	}
 	o := byte(op)
+	if !interesting(o) {
+		t.c.count(depth, pc, o, gas, cost, 1 << 23)
+		return nil
+	}
 	if o == 0xf0 || o == 0xf5 {
 		var a rcommon.Address
 		if o == 0xf0 {
@@ -65,10 +73,10 @@ func (t *rTracer) CaptureState(env *rvm.EVM, pc uint64, op rvm.OpCode, gas, cost
 		t.c.createdAddrs = append(t.c.createdAddrs, as)
 	}
 	t.c.step(stepInfo{
-		depth: depth, pc: pc, op: o, gas: contract.Gas,
+		depth: depth, pc: pc, op: o, gas: gas, cost: cost, floor: 1 << 23,
 		back:    stack.Back,
 		mem:     memory.Get,
-		self:    fmt.Sprintf("%x", contract.Address().Bytes()),
+		self:    func() string { return fmt.Sprintf("%x", contract.Address().Bytes()) },
 		gasLeft: cost / 2, // cost includes the forwarded gas (63/64 of the remainder)
 		reqGas: func(a byte, in []byte) uint64 {
 			return rvm.PrecompiledContractsByzantium[rcommon.BytesToAddress([]byte{a})].RequiredGas(in)
@@ -138,9 +146,10 @@ func runRef(c EVMCase, stepLimit int) (res *result) {
 	var verr error
 	if len(c.To) == 0 {
 		var addr rcommon.Address
+		expect := rcrypto.CreateAddress(sender, st.GetNonce(sender))
+		res.tr.createdAddrs = append(res.tr.createdAddrs, fmt.Sprintf("%x", expect[:]))
 		ret, addr, _, verr = evm.Create(rvm.AccountRef(sender), c.Data, topGas, value)
 		res.created = fmt.Sprintf("%x", addr[:])
-		res.tr.createdAddrs = append(res.tr.createdAddrs, res.created)
 	} else {
 		st.SetNonce(sender, st.GetNonce(sender)+1)
 		ret, _, verr = evm.Call(rvm.AccountRef(sender), rcommon.BytesToAddress(c.To), c.Data, topGas, value)
